@@ -17,6 +17,8 @@ structure Step where
   kind : String
   sel : String
   reqs : List (Aux × Req)
+  /-- `batm`: the contextual set of each item -/
+  sels : List String := []
   typ : String := ""
   frel : String := ""
 
@@ -27,6 +29,15 @@ def parseReqs : Nat → List String → Option (List (Aux × Req) × List String
     let (rq, ts) ← FgaCodec.req ts
     let (rest, ts) ← parseReqs k ts
     pure ((aux, rq) :: rest, ts)
+
+def parseSelReqs : Nat → List String → Option (List String × List (Aux × Req) × List String)
+  | 0, ts => some ([], [], ts)
+  | k + 1, ts => do
+    let (sel, ts) ← FgaCodec.tok ts
+    let (aux, ts) ← FgaCodec.aux ts
+    let (rq, ts) ← FgaCodec.req ts
+    let (sels, rest, ts) ← parseSelReqs k ts
+    pure (sel :: sels, (aux, rq) :: rest, ts)
 
 def parseSteps : Nat → List String → Option (List Step)
   | 0, _ => some []
@@ -41,6 +52,10 @@ def parseSteps : Nat → List String → Option (List Step)
         let (n, ts) ← FgaCodec.nat ts
         let (rs, ts) ← parseReqs n ts
         pure ({ kind := kind, sel := sel, reqs := rs : Step }, ts)
+      | "batm" => do
+        let (n, ts) ← FgaCodec.nat ts
+        let (sels, rs, ts) ← parseSelReqs n ts
+        pure ({ kind := kind, sel := sel, reqs := rs, sels := sels : Step }, ts)
       | "lo" => do
         let (typ, ts) ← FgaCodec.tok ts
         let (rq, ts) ← FgaCodec.req ts
@@ -79,7 +94,7 @@ def parseC04 (line : String) : Option C04Case := do
   pure { stratified := strat = 1, model := m, base := base, cA := cA, cB := cB, steps := steps }
 
 def ctxOf (c : C04Case) (sel : String) : List Tuple :=
-  if sel = "a" then c.cA else if sel = "b" then c.cB else []
+  if sel = "a" then c.cA else if sel = "b" then c.cB else if sel = "m" then c.cA ++ c.cB else []
 
 /-- the harness' rendering of Expand answers: `;` separated, computed usersets of a tuple-to-userset leaf sorted -/
 def joinS (l : List String) : String := String.join (l.map (";" ++ ·))
@@ -177,6 +192,8 @@ def judge (c : C04Case) (eng : String) (idx : Nat) (st : Step) (pair : String) (
           "[C04-V2-CTXVALID] the weighted-graph engine treats a contextual tuple that only the lax validateCondition accepts (condition declared on a restriction of another shape of the same user type) differently from the same tuple stored"
         else if f9 && st.kind ≠ "lu" && st.kind ≠ "exp" then
           "[C04-F9] a contextual tuple and the tuple of the subject's wildcard (or vice versa) sit on the same object#relation and one is conditioned: the sorted ReadStartingWithUser keeps one tuple per object before the condition filter, contextual tuples first (finding F9)"
+        else if st.kind = "batm" then
+          s!"[C04-CROSS-ITEM] a BatchCheck whose items carry different contextual tuples (per item: {st.sels}) answers an item differently from the same item over the store holding ITS tuples: contextual tuples of one item must not reach (or be withheld from) another"
         else "[C04-SEMANTIC] contextual tuples are not treated like stored tuples"
       { acc with viols := s!"{tag}: engine={eng} step {idx} {st.kind} {what} contextual-set={st.sel}: with contextual tuples {a} (caches on) / {pl} (no caches), with the same tuples stored {b}{diag}" :: acc.viols }
   | _ => { acc with diffs := s!"unparsable answer {pair}" :: acc.diffs }
